@@ -335,6 +335,10 @@ func checkC07(c *Ctx, r *Report) {
 			}
 		}
 	}
+	// a canonical stream must be delivered completely whatever the caller's buffer sizes
+	eofDrainRule(c, r, "C07-drain")
+	// ... and the stream produced must not depend on how the caller split its writes
+	percallRule(c, r, "C07-percall")
 	r.NotCov = append(r.NotCov, "tree update/rebuild arithmetic, match selection, bit packing, end-of-stream padding: value properties of run-time data")
 	_ = fmt.Sprint
 }
